@@ -96,6 +96,14 @@ def methods_named(prog: Program, name: str) -> list[FunctionInfo]:
 
 
 def dispatch_targets(prog: Program, classes, name: str) -> list[FunctionInfo]:
+    cache = prog.__dict__.setdefault("_dispatch_cache", {})
+    key = (frozenset(q if isinstance(q, str) else q.qualname for q in classes), name)
+    if key not in cache:
+        cache[key] = _dispatch_targets(prog, classes, name)
+    return list(cache[key])
+
+
+def _dispatch_targets(prog: Program, classes, name: str) -> list[FunctionInfo]:
     seen: dict[str, FunctionInfo] = {}
     for q in classes:
         c = prog.classes[q] if isinstance(q, str) else q
